@@ -137,6 +137,16 @@ inputs, sample of observations, `further_ties`: the outcome of every additional 
   a device's local variable preset by the harness shared bytes with the scratch word of the main program's map lookup (harmless
   at program start, cf. C04): the program now sets the local itself.  C28 - not an alarm but the opposite: the harness's trace
   kept references to the device's own chunk objects alive and thereby hid an address-reuse defect (seed C28-g); it stores copies.
+* **Round 10, C03**: giving a fifth of C03's variables an explicit byte order shifted the random stream, and two of the new conditions
+  alarmed on the unchanged tree (thorough tier and seed 3): `(v2 & -2**63) == 0` with a 4-byte v2 = 2**31, and `(v0 + v0) == -1`
+  with a 4-byte v0.  Both are outside the property's precondition - an operand INSIDE the condition does not fit the narrowest
+  width involved (32 bits) - which the oracle only tested for the two sides of the comparison, not for the operands of the
+  arithmetic inside them; the oracle now tests every operand (`operands_fit`), and a case with such a condition is not handed to
+  the model.  The byte-order choice moved to its own random stream, so the older cases are generated as before.  Re-running all
+  ten C03 seeds afterwards showed that three of them (C03-c, C03-e, C03-g) had been caught by only one or two lucky cases of the
+  400 and were lost when the stream moved: a family of 60 (900 thorough) directed cases on its own stream now covers them
+  (64-bit operand against a negative narrower variable; fixed-point variable exactly at a negative decimal constant; block
+  ending in a nested block that exits, followed by an Else block) - each of the three is now caught by 3 to 9 cases.
 * Every other mismatch met on the unchanged tree turned out to be a genuine defect: section 6.
 '''
 
